@@ -235,3 +235,189 @@ Example bcrp_fourth_may_be_jump :
   let p := [106; 4; 98; 99; 114; 112; 1; 1; 99; 0; 0; 0; 0] in
   is_bcrp p = true /\ parse_contract p = Ok [0; 0; 0; 0] /\ register_program [0; 0; 0; 0] <> p.
 Proof. vm_compute. repeat split. discriminate. Qed.
+
+(* ---------- converse for call-contract programs ---------- *)
+
+(* a decoded direct data push (opcode 1..75) is its opcode byte followed by its data *)
+Lemma dec_data_push (s : item) (i : inst) : dec s = Some i -> 1 <= i_op i -> i_op i <= 75 ->
+  lenN (i_data i) = i_op i
+  /\ s = i_op i :: i_data i ++ skipn (N.to_nat (i_len i)) s.
+Proof.
+  intros D H1 H2. destruct (dec_spec _ _ D) as (_ & _ & _ & NT & _).
+  destruct s as [|opc t]; [discriminate|]. cbn [nth_error] in NT. apply some_inj in NT.
+  rewrite <- NT in *. clear NT. cbn [dec] in D.
+  change OP_1 with 81 in D. change OP_16 with 96 in D.
+  change OP_DATA_1 with 1 in D. change OP_DATA_75 with 75 in D.
+  destruct ((81 <=? opc) && (opc <=? 96)) eqn:A1; [lia|].
+  destruct ((1 <=? opc) && (opc <=? 75)) eqn:A2; [|lia].
+  destruct (lenN t <? opc) eqn:A3; [discriminate|].
+  apply some_inj in D. subst i. cbn [i_op i_len i_data mk].
+  split; [rewrite lenN_firstn; lia|]. f_equal.
+  replace (N.to_nat (1 + (opc - 1 + 1))) with (S (N.to_nat opc)) by lia.
+  cbn [skipn]. symmetry. apply firstn_skipn.
+Qed.
+
+(* generalisation of [two_inst_shape]: both instructions are direct data pushes *)
+Lemma two_push_shape (p : item) (i0 i1 : inst) (n0 n : N) : parses p [i0; i1] ->
+  i_op i0 = n0 -> 1 <= n0 -> n0 <= 75 -> i_op i1 = n -> 1 <= n -> n <= 75 ->
+  lenN (i_data i0) = n0 /\ lenN (i_data i1) = n /\ p = n0 :: i_data i0 ++ n :: i_data i1.
+Proof.
+  intros P E0 A1 A2 E1 B1 B2.
+  inversion P as [|s a r D0 P1]; subst s a r. inversion P1 as [|s b r D1 P2]; subst s b r.
+  inversion P2 as [H|]; clear P P1 P2.
+  destruct (dec_data_push _ _ D0) as [L0 S0]; [lia|lia|].
+  destruct (dec_data_push _ _ D1) as [L1 S1]; [lia|lia|].
+  rewrite <- H, app_nil_r in S1. rewrite S1 in S0. rewrite E0 in *. rewrite E1 in *.
+  split; [exact L0|]. split; [exact L1|exact S0].
+Qed.
+
+Lemma is_call_contract_shape (p : item) : is_call_contract p = true ->
+  exists h, lenN h = 32 /\ p = call_contract_program h.
+Proof.
+  unfold is_call_contract. intros H.
+  destruct (parse_program p) as [[|i0 [|i1 [|]]]| |] eqn:PP; try discriminate.
+  pose proof (parse_program_ok_short _ _ PP) as HL.
+  apply parse_program_parses in PP; [|exact HL].
+  apply andb_prop in H. destruct H as [H0 H1].
+  apply andb_prop in H0. destruct H0 as [E0 T0]. apply andb_prop in H1. destruct H1 as [E1 _].
+  apply (list_eqb_eq N.eqb N.eqb_eq) in T0.
+  destruct (two_push_shape p i0 i1 4 32 PP) as (_ & LD & EP); try lia.
+  exists (i_data i1). split; [exact LD|].
+  rewrite EP, T0. unfold call_contract_program, push_data_bytes at 2. fold (lenN (i_data i1)).
+  rewrite LD. reflexivity.
+Qed.
+
+Example call_contract_recognised :
+  let h := repeat 7 32 in
+  is_call_contract (4 :: 98 :: 99 :: 114 :: 112 :: 32 :: h) = true
+  /\ lenN h = 32 /\ 4 :: 98 :: 99 :: 114 :: 112 :: 32 :: h = call_contract_program h.
+Proof. vm_compute. repeat split. Qed.
+
+(* ---------- converse for registration programs with a minimal contract push ---------- *)
+
+
+(* over BYTES, an instruction that decodes to the canonical push of its data is encoded as
+   PushdataBytes encodes it (length prefixes are determined by the length) *)
+Lemma dec_pinst (s d : item) : Forall byte s -> dec s = Some (pinst d) ->
+  s = push_data_bytes d ++ skipn (N.to_nat (i_len (pinst d))) s.
+Proof.
+  intros HB D. destruct (dec_spec _ _ D) as (_ & _ & _ & NT & _).
+  destruct s as [|opc t]; [discriminate|]. cbn [nth_error] in NT. apply some_inj in NT.
+  revert D NT. unfold pinst, push_data_bytes. fold (lenN d). set (l := lenN d).
+  destruct (l =? 0) eqn:E0.
+  { cbn [i_op i_len mk]. intros _ ->. reflexivity. }
+  destruct (l <=? 75) eqn:E1.
+  { cbn [i_op i_len mk]. intros D ->. cbn [dec] in D.
+    change OP_1 with 81 in D. change OP_16 with 96 in D.
+    change OP_DATA_1 with 1 in *. change OP_DATA_75 with 75 in D.
+    destruct ((81 <=? l) && (l <=? 96)) eqn:A1; [lia|].
+    destruct ((1 <=? l) && (l <=? 75)) eqn:A2; [|lia].
+    destruct (lenN t <? l) eqn:A3; [discriminate|].
+    apply some_inj in D. apply (f_equal i_data) in D. cbn [i_data mk] in D.
+    replace (1 + l - 1) with l by lia. cbn [app]. f_equal.
+    replace (N.to_nat (1 + l)) with (S (N.to_nat l)) by lia. cbn [skipn].
+    rewrite <- D. symmetry. apply firstn_skipn. }
+  destruct (l <? 256) eqn:E2.
+  { cbn [i_op i_len mk]. intros D ->. change OP_PUSHDATA1 with 76.
+    cbn [dec] in D. change ((OP_1 <=? 76) && (76 <=? OP_16)) with false in D.
+    change ((OP_DATA_1 <=? 76) && (76 <=? OP_DATA_75)) with false in D.
+    change (76 =? OP_PUSHDATA1) with true in D. cbv iota in D.
+    destruct t as [|n u]; [discriminate|]. destruct (lenN u <? n) eqn:A3; [discriminate|].
+    apply some_inj in D. pose proof (f_equal i_len D) as DL. pose proof (f_equal i_data D) as DD.
+    cbn [i_len i_data mk] in DL, DD. clear D.
+    assert (n = l) by lia. subst n. cbn [app]. do 2 f_equal.
+    replace (N.to_nat (2 + l)) with (S (S (N.to_nat l))) by lia. cbn [skipn].
+    rewrite <- DD. symmetry. apply firstn_skipn. }
+  destruct (l <? 65536) eqn:E3.
+  { cbn [i_op i_len mk]. intros D ->. change OP_PUSHDATA2 with 77.
+    cbn [dec] in D. change ((OP_1 <=? 77) && (77 <=? OP_16)) with false in D.
+    change ((OP_DATA_1 <=? 77) && (77 <=? OP_DATA_75)) with false in D.
+    change (77 =? OP_PUSHDATA1) with false in D. change (77 =? OP_PUSHDATA2) with true in D.
+    cbv iota zeta in D.
+    destruct t as [|n0 [|n1 u]]; try discriminate.
+    destruct (lenN u <? n0 + 256 * n1) eqn:A3; [discriminate|].
+    apply some_inj in D. pose proof (f_equal i_len D) as DL. pose proof (f_equal i_data D) as DD.
+    cbn [i_len i_data mk] in DL, DD. clear D.
+    pose proof (Forall_inv (Forall_inv_tail HB)) as B0.
+    pose proof (Forall_inv (Forall_inv_tail (Forall_inv_tail HB))) as B1. unfold byte in B0, B1.
+    assert (N0 : l mod 256 = n0) by lia. assert (N1 : l / 256 = n1) by lia.
+    assert (NL : n0 + 256 * n1 = l) by lia.
+    rewrite N0, N1. cbn [app]. do 3 f_equal.
+    replace (N.to_nat (3 + l)) with (S (S (S (N.to_nat l)))) by lia. cbn [skipn].
+    rewrite <- DD, NL. symmetry. apply firstn_skipn. }
+  cbn [i_op i_len mk]. intros D ->. change OP_PUSHDATA4 with 78.
+  cbn [dec] in D. change ((OP_1 <=? 78) && (78 <=? OP_16)) with false in D.
+  change ((OP_DATA_1 <=? 78) && (78 <=? OP_DATA_75)) with false in D.
+  change (78 =? OP_PUSHDATA1) with false in D. change (78 =? OP_PUSHDATA2) with false in D.
+  change (78 =? OP_PUSHDATA4) with true in D. cbv iota zeta in D.
+  destruct t as [|b0 [|b1 [|b2 [|b3 u]]]]; try discriminate.
+  destruct (lenN u <? le_decode [b0; b1; b2; b3]) eqn:A3; [discriminate|].
+  apply some_inj in D. pose proof (f_equal i_len D) as DL. pose proof (f_equal i_data D) as DD.
+    cbn [i_len i_data mk] in DL, DD. clear D.
+  pose proof (Forall_inv (Forall_inv_tail HB)) as B0.
+  pose proof (Forall_inv (Forall_inv_tail (Forall_inv_tail HB))) as B1.
+  pose proof (Forall_inv (Forall_inv_tail (Forall_inv_tail (Forall_inv_tail HB)))) as B2.
+  pose proof (Forall_inv (Forall_inv_tail (Forall_inv_tail (Forall_inv_tail (Forall_inv_tail HB))))) as B3.
+  unfold byte in B0, B1, B2, B3.
+  assert (NL : le_decode [b0; b1; b2; b3] = l) by lia.
+  assert (NE : l = b0 + 256 * (b1 + 256 * (b2 + 256 * b3))) by (rewrite <- NL; cbn [le_decode]; lia).
+  assert (N0 : l mod 256 = b0) by lia. assert (N1 : (l / 256) mod 256 = b1) by lia.
+  assert (N2 : (l / 65536) mod 256 = b2) by lia. assert (N3 : (l / 16777216) mod 256 = b3) by lia.
+  rewrite N0, N1, N2, N3. cbn [app]. do 5 f_equal.
+  replace (N.to_nat (5 + l)) with (S (S (S (S (S (N.to_nat l)))))) by lia. cbn [skipn].
+  rewrite <- DD, NL. symmetry. apply firstn_skipn.
+Qed.
+
+(* an instruction without data (here: FAIL) is its opcode byte *)
+Lemma dec_fail (s : item) (i : inst) : dec s = Some i -> i_op i = OP_FAIL ->
+  s = OP_FAIL :: skipn (N.to_nat (i_len i)) s.
+Proof.
+  intros D E. destruct (dec_spec _ _ D) as (SH & _ & _ & NT & _).
+  unfold shape in SH. rewrite E in SH. change (i_len i = 1 /\ i_data i = []) in SH.
+  destruct SH as [-> _]. destruct s as [|x t]; [discriminate|].
+  cbn [nth_error] in NT. apply some_inj in NT. rewrite NT, E. reflexivity.
+Qed.
+
+(* a recognised registration program OVER BYTES whose fourth instruction is the minimal
+   push of its data is the builder's output for that contract (without the minimality
+   hypothesis this fails: [bcrp_fourth_may_be_jump]; over unbounded "bytes" a PUSHDATA2
+   length prefix such as 300,0 would be a second encoding) *)
+Lemma is_bcrp_shape (p : item) (i0 i1 i2 i3 : inst) : Forall byte p ->
+  parse_program p = Ok [i0; i1; i2; i3] -> is_bcrp p = true -> i3 = pinst (i_data i3) ->
+  i_data i3 <> [] /\ p = register_program (i_data i3) /\ parse_contract p = Ok (i_data i3).
+Proof.
+  intros HB PP H M. unfold is_bcrp, parse_contract in *. rewrite PP in *. cbn [obind].
+  pose proof (parse_program_ok_short _ _ PP) as HL.
+  apply parse_program_parses in PP; [|exact HL].
+  repeat (apply andb_prop in H; let X := fresh "X" in destruct H as [H X]).
+  apply andb_prop in X1. destruct X1 as [E1 T1]. apply andb_prop in X0. destruct X0 as [E2 T2].
+  apply (list_eqb_eq N.eqb N.eqb_eq) in T1. apply (list_eqb_eq N.eqb N.eqb_eq) in T2.
+  split; [intros E; rewrite E in X; discriminate|]. split; [|reflexivity].
+  inversion PP as [|s a r D0 P1]; subst s a r. inversion P1 as [|s a r D1 P2]; subst s a r.
+  inversion P2 as [|s a r D2 P3]; subst s a r. inversion P3 as [|s a r D3 P4]; subst s a r.
+  inversion P4 as [HN|]; clear PP P1 P2 P3 P4.
+  pose proof (dec_fail _ _ D0 ltac:(lia)) as S0.
+  destruct (dec_data_push _ _ D1) as [_ S1]; [lia|lia|].
+  destruct (dec_data_push _ _ D2) as [_ S2]; [lia|lia|].
+  set (s3 := skipn _ (skipn _ (skipn _ p))) in *.
+  assert (EP : p = [106; 4; 98; 99; 114; 112; 1; 1] ++ s3).
+  { rewrite S0 at 1. rewrite S1 at 1. rewrite S2 at 1. rewrite T1, T2.
+    replace (i_op i1) with 4 by lia. replace (i_op i2) with 1 by lia. reflexivity. }
+  assert (HB3 : Forall byte s3) by (rewrite EP in HB; apply Forall_app in HB; apply HB).
+  rewrite M in D3, HN. pose proof (dec_pinst _ _ HB3 D3) as S3.
+  rewrite <- HN, app_nil_r in S3. rewrite EP at 1. rewrite S3. reflexivity.
+Qed.
+
+Example bcrp_minimal_recognised :
+  let c := [81; 118] in
+  let p := [106; 4; 98; 99; 114; 112; 1; 1; 2; 81; 118] in
+  Forall byte p /\ parse_program p = Ok [mk 106 1 []; mk 4 5 bcrp_tag; mk 1 2 bcrp_version; pinst c]
+  /\ is_bcrp p = true /\ p = register_program c.
+Proof.
+  cbv zeta. split; [repeat constructor|]. vm_compute. repeat split.
+Qed.
+(* the fourth instruction may also be OP_1..OP_16, which the builder never emits *)
+Example bcrp_fourth_may_be_small_int :
+  let p := [106; 4; 98; 99; 114; 112; 1; 1; 81] in
+  is_bcrp p = true /\ parse_contract p = Ok [1] /\ register_program [1] <> p.
+Proof. vm_compute. repeat split. discriminate. Qed.
